@@ -350,6 +350,24 @@ def cfgs(tier):
             k = rnd.randint(1, min(6, (1 << w)))
             terms = tuple(sorted(rnd.sample(range(1 << w), k)))
             yield 'SumOfMinterms w%d %s' % (w, '_'.join(map(str, terms))), som(w, terms)
+    # every non-empty subset for 2 and 3 input bits (sparse and dense lists, with and without the all-ones combination); for 4 bits the
+    # lists with one or two combinations missing and seeded dense lists
+    done = set()
+    for w in (2, 3):
+        for mask in range(1, 1 << (1 << w)):
+            terms = tuple(t for t in range(1 << w) if (mask >> t) & 1)
+            if quick and w == 3 and len(terms) not in (1, 5, 6, 7, 8) and mask % 7:
+                continue
+            done.add((w, terms))
+            yield 'SumOfMinterms w%d list %s' % (w, '_'.join(map(str, terms))), som(w, terms)
+    full = tuple(range(16))
+    for miss in [()] + [(m,) for m in range(16)] + [(15, m) for m in range(0, 15, 3 if quick else 1)] + [(0, 7), (5, 10)]:
+        terms = tuple(t for t in full if t not in miss)
+        yield 'SumOfMinterms w4 all but %s' % ('_'.join(map(str, miss)) or 'none'), som(4, terms)
+    for _ in range(6 if quick else 60):
+        k = rnd.randint(9, 15)
+        terms = tuple(sorted(rnd.sample(range(16), k)))
+        yield 'SumOfMinterms w4 dense %s' % '_'.join(map(str, terms)), som(4, terms)
 
     # ---- swap, equality, comparators ------------------------------------------------------------------------
     def swap(w):
